@@ -701,10 +701,21 @@ def _target_decoy_routing(ctx):
                   x.func, ast.Attribute) and x.func.attr == "append_data"
                   for x in ast.walk(n))]
         ctx.require(len(vz) == 1, f"{f.qual}: writer loop lost in a variant")
-        elems = seq_elems(vT.of(vz[0].iter.args[1]))
+        bt = vT.of(vz[0].iter.args[1])
+        elems = seq_elems(bt)
+        if elems is None and bt[0] == "comp" and len(bt[3]) == 1 and \
+                bt[3][0][2] and seq_elems(bt[3][0][1]) is not None:
+            ctx.check(False, "C03d-mask-order", f,
+                      "output block i is paired with writer i by position",
+                      "the list of output blocks is filtered ("
+                      + show(bt[3][0][2][0], 60) + ") before it is zipped "
+                      "with the writers: when a block is dropped the "
+                      "remaining ones move up and are written to the wrong "
+                      "file (decoy rows into the targets file)",
+                      node=vz[0])
+            return
         ctx.require(elems is not None, f"{f.qual}: construction of the "
-                    "output blocks not recognised: "
-                    + show(vT.of(vz[0].iter.args[1]), 200))
+                    "output blocks not recognised: " + show(bt, 200))
         for sq in (False, True):
             for dc in (False, True):
                 env = {n: (sq if k == "sqlite" else dc)
